@@ -69,6 +69,21 @@ def gen_conn():
         body += "def %s : Nat := %d\n" % (lower_camel(k.replace("XMPP_", "")), v)
     for k, v in sorted(sasl.items(), key=lambda kv: kv[1]):
         body += "def %s : Nat := %d\n" % (lower_camel(k), v)
+    body += "\n/-! namespaces (strophe.h) -/\n"
+    for m in re.finditer(r'#\s*define\s+(XMPP_NS_\w+)\s+"([^"]*)"', _read("strophe.h")):
+        body += "def %s : List UInt8 := %s\n" % (lower_camel(m.group(1).replace("XMPP_", "")),
+                                                  lean_bytes(m.group(2).encode()))
+    body += "\n/-! stream error conditions in enum order (strophe.h xmpp_error_type_t / auth.c _handle_error) -/\n"
+    enum = re.search(r"typedef enum \{([^}]*)\}\s*xmpp_error_type_t", hdr, re.S)
+    if not enum:
+        raise ExtractError("xmpp_error_type_t not found")
+    enum_names = re.findall(r"XMPP_SE_\w+", enum.group(1))
+    herr = fn_body(auth, "_handle_error")
+    table = dict((b, a) for a, b in re.findall(r'strcmp\(name,\s*"([^"]+)"\)\s*==\s*0\)\s*conn->stream_error->type\s*=\s*(XMPP_SE_\w+)', herr))
+    rows = []
+    for i, e in enumerate(enum_names):
+        rows.append('(%d, %s)' % (i, lean_bytes(table[e].encode()) if e in table else "[]"))
+    body += "def streamErrorNames : List (Nat × List UInt8) := [\n  " + ",\n  ".join(rows) + "]\n"
     body += "\nend Strophe.Gen\n"
     write("Conn", body)
 
